@@ -51,6 +51,7 @@ type pruneCase struct {
 	Pruned []string    `json:"pruned"`
 	Needed []string    `json:"needed"`
 	Lost   []pruneLost `json:"lost"`
+	LostAW []pruneLost `json:"lostaw"` // losses of the pruner as written before /repo 757b147
 }
 
 type pruneQuery struct {
@@ -357,6 +358,13 @@ func runC18(env *sr.Env, in *c18Input, seed int64) *c18Result {
 					for _, l := range c.Lost {
 						if l.File == f {
 							why = l.Why
+						}
+					}
+					if why == "" {
+						for _, l := range c.LostAW { // a repaired mechanism is back: report it under its own name
+							if l.File == f {
+								why = l.Why
+							}
 						}
 					}
 					if why == "" {
